@@ -24,7 +24,8 @@ EXPLANATION = (
     'of every table entry; class bases: _attrs/call) every class of the family provides the attribute or the read '
     'is guarded; R4 recursion: after removing the re-entrancy-guarded functions and the reasoned structural '
     'recursions the typed call graph of the analysis must be acyclic. Exceptions of stdlib calls outside the table, '
-    'stack depth and termination of data loops are NOT decided.')
+    'stack depth and termination of data loops are NOT decided.'
+    ' Later additions: R1 a parameter of an API entry point that defaults to None is followed through the repository functions it is handed to (copies included) and must not reach an os.path operation; R4 Project.norm_package is interpreted on a file system in which every probe succeeds, for relative, unnamed and absolute file names, and must come to an end; a call made before a re-entrancy marker is set counts only if its callee can come back to the guarded function.')
 TECHNIQUE = 'exception-escape analysis over the call graph + visitor summaries + protocol conformance on class families + cycle cut-set'
 
 ENTRIES = {'lint': 'supp/linter.py:lint', 'assist': 'supp/assistant.py:assist', 'location': 'supp/assistant.py:location'}
